@@ -159,7 +159,7 @@ def make_program(model: Dict[str, Any], cfg_seed: int, identity: bool = False) -
         ops += flips + ((mops + aops) if merge_first else (aops + mops))
     ops.append({"op": "assemble"})
     ops.append({"op": "write", "path": DICT_PATH})
-    return {"ops": ops}
+    return {"ops": ops, "point_type": cs.pick(["list", "list", "tuple", "array"])}
 
 
 # -- reference -----------------------------------------------------------------------------
